@@ -24,7 +24,7 @@ from mc.ref import typing as rt
 PROPERTY = "C14"
 MAXTASKS = 50
 RULE = (
-    "every sequence of <=2 operations (<=3 in thorough) from an alphabet of 37 concrete operations, every "
+    "every sequence of <=2 operations (<=3 in thorough) from an alphabet of 40 concrete operations, every "
     "sequence of 3 (4 in thorough) over a reduced 14-operation alphabet; "
     "operations range over 5 environments (module default, two instances, a subclass with "
     "max_recursion_depth=2, a subclass registering its own function), 8 queries and 4 documents, each "
@@ -75,6 +75,10 @@ def ops_alphabet(tier_small=False):
     # new one (whose id() may coincide with the old one's): results must follow the data
     ops += [("mutate", "d1"), ("mutate", "d3"), ("apply_mutate_apply", 0, "d1"), ("apply_renew_apply", 0, "d1"),
             ("find_mutate_find", "E1", "qA", "d1"), ("find_mutate_find", "D", "qA", "d3")]
+    # the registry of ONE environment changes between two compilations of the same text: the second
+    # compilation must follow the registry as it is now
+    ops += [("recompile_after_unregister", "E1"), ("recompile_after_unregister", "D"),
+            ("recompile_after_resignature", "E2")]
     if tier_small:
         keep = {("compile", "E1", "qA"), ("compile", "E1", "qF"), ("compile", "E2", "qF"), ("apply", 0, "d1"),
                 ("apply", 0, "d3"), ("apply", 1, "d2"), ("find", "E2", "qF", "d1"), ("mfind", "qF", "d1"),
@@ -153,13 +157,13 @@ class World:
                 return k
         return None
 
-    def make_f1(self, n):
+    def make_f1(self, n, ret="LOGICAL"):
         from_mod = self.jp.function_extensions
         ET = from_mod.ExpressionType
 
         class F1(from_mod.FilterFunction):
             arg_types = [ET.VALUE]
-            return_type = ET.LOGICAL
+            return_type = getattr(ET, ret)
 
             def __call__(self, v):
                 return v == n and not isinstance(v, bool)
@@ -306,6 +310,28 @@ def run_history(hist):
             w.mutate(d)
             exp = m.expect(e, q, d, w.docs)
             obs = observe(lambda: w.env(e).find(Q[q], w.docs[d]))
+        elif kind in ("recompile_after_unregister", "recompile_after_resignature"):
+            _, e = op
+            env = w.env(e)
+            env.function_extensions["f1"] = w.make_f1(F_IMPL[e])
+            m.funcs[e].add("f1")
+            exp1 = m.expect(e, "qF", "d1", w.docs)
+            obs1 = observe(lambda: env.compile(Q["qF"]).find(w.docs["d1"]))
+            if tuple(exp1) != tuple(obs1[:2]):
+                return (i, op, exp1, obs1[:2])
+            if kind == "recompile_after_unregister":
+                del env.function_extensions["f1"]
+                m.funcs[e].discard("f1")
+            else:
+                env.function_extensions["f1"] = w.make_f1(F_IMPL[e], ret="VALUE")
+                m.funcs[e].discard("f1")
+                m.resig = getattr(m, "resig", set()) | {e}
+            exp = ("err", "JSONPathError")
+            obs = observe(lambda: env.compile(Q["qF"]).find(w.docs["d1"]))
+            if kind == "recompile_after_resignature":
+                # restore a usable f1 so later operations of the history see the normal signature
+                env.function_extensions["f1"] = w.make_f1(F_IMPL[e])
+                m.funcs[e].add("f1")
         elif kind == "register":
             _, e = op
             w.env(e).function_extensions["f1"] = w.make_f1(F_IMPL[e])
